@@ -4,10 +4,10 @@ Run as a subprocess of props/C17.py (environment common.exo_env()):
     c17_impl.py <seed> <n_programs> <n_exprs> <n_parse> <do_search:0|1> <out.jsonl> [time_budget_s]
 
 Records written (one JSON object per line):
-  proc    : one printed procedure -- Gallina term of the LoopIR (`proc sym` of coq/Print/ModelSyntax.v), the
+  proc    : one printed procedure -- s-expression of the LoopIR (`proc sym` of coq/Print/ModelSyntax.v), the
             PrintEnv calls the real printer made (observed by wrapping PrintEnv.push / PrintEnv.get_name), the
             names it got back, the lines _print_proc returned
-  expr    : a generated expression -- Gallina term (`expr string`), text of the real _print_expr, tree the real
+  expr    : a generated expression -- s-expression (`expr string`), text of the real _print_expr, tree the real
             front end (CPython ast + pyparser.Parser) builds from that text
   parse   : a generated token string (random parenthesisation) -- tokens, tree of the real front end
   finding : a failing input of the search (name collision / unstable name / round trip)
@@ -68,11 +68,12 @@ class Unsupported(Exception):
     pass
 
 
-# ====================================================================================== Gallina export
+# ====================================================================================== export (s-expressions)
+# The syntax read by coq/Print/driver.ml (conversion to the extracted datatypes of ModelSyntax.v / ModelExpr.v).
 def q(s: str) -> str:
     if any(ord(c) > 126 or ord(c) < 32 for c in s):
         raise Unsupported("non-printable character in %r" % s)
-    return '"' + s.replace('"', '""') + '"'
+    return '"' + s.replace("\\", "\\\\").replace('"', '\\"') + '"'
 
 
 _symno: dict = {}
@@ -83,7 +84,7 @@ def gsym(s: Sym) -> str:
     small numbers keep the unary nat of the model cheap); reset_syms() starts a new numbering"""
     if s not in _symno:
         _symno[s] = len(_symno) + 1
-    return "(mkSym %s %d)" % (q(str(s)), _symno[s])
+    return "(sym %s %d)" % (q(str(s)), _symno[s])
 
 
 def reset_syms():
@@ -99,43 +100,43 @@ BASETY = [(T.Num, "TyNum"), (T.F16, "TyF16"), (T.F32, "TyF32"), (T.F64, "TyF64")
 
 
 def glist(xs) -> str:
-    return "[" + "; ".join(xs) + "]"
+    return "(" + " ".join(xs) + ")"
 
 
 def gconst(val) -> str:
     s = str(val)
     if s.startswith("-"):
-        return "(EConst true %s)" % q(s[1:])
-    return "(EConst false %s)" % q(s)
+        return "(const 1 %s)" % q(s[1:])
+    return "(const 0 %s)" % q(s)
 
 
 def gexpr(e, var=gsym) -> str:
     if isinstance(e, LoopIR.Read):
-        return "(ERead %s %s)" % (var(e.name), glist(gexpr(i, var) for i in e.idx))
+        return "(read %s %s)" % (var(e.name), glist(gexpr(i, var) for i in e.idx))
     if isinstance(e, LoopIR.Const):
         return gconst(e.val)
     if isinstance(e, LoopIR.USub):
-        return "(EUSub %s)" % gexpr(e.arg, var)
+        return "(neg %s)" % gexpr(e.arg, var)
     if isinstance(e, LoopIR.BinOp):
         if e.op not in BINOPS:
             raise Unsupported("operator %r" % e.op)
-        return "(EBin %s %s %s)" % (BINOPS[e.op], gexpr(e.lhs, var), gexpr(e.rhs, var))
+        return "(bin %s %s %s)" % (BINOPS[e.op], gexpr(e.lhs, var), gexpr(e.rhs, var))
     if isinstance(e, LoopIR.WindowExpr):
         acc = []
         for w in e.idx:
             if isinstance(w, LoopIR.Interval):
-                acc.append("(%s, Some %s)" % (gexpr(w.lo, var), gexpr(w.hi, var)))
+                acc.append("(iv %s %s)" % (gexpr(w.lo, var), gexpr(w.hi, var)))
             elif isinstance(w, LoopIR.Point):
-                acc.append("(%s, None)" % gexpr(w.pt, var))
+                acc.append("(pt %s)" % gexpr(w.pt, var))
             else:
                 raise Unsupported("w_access %s" % type(w).__name__)
-        return "(EWin %s %s)" % (var(e.name), glist(acc))
+        return "(win %s %s)" % (var(e.name), glist(acc))
     if isinstance(e, LoopIR.StrideExpr):
-        return "(EStride %s %s)" % (var(e.name), q(str(e.dim)))
+        return "(stride %s %s)" % (var(e.name), q(str(e.dim)))
     if isinstance(e, LoopIR.Extern):
-        return "(EExtern %s %s)" % (q(e.f.name() or "_anon_"), glist(gexpr(a, var) for a in e.args))
+        return "(ext %s %s)" % (q(e.f.name() or "_anon_"), glist(gexpr(a, var) for a in e.args))
     if isinstance(e, LoopIR.ReadConfig):
-        return "(ECfg %s %s)" % (q(e.config.name()), q(e.field))
+        return "(cfg %s %s)" % (q(e.config.name()), q(e.field))
     raise Unsupported("expr %s" % type(e).__name__)
 
 
@@ -148,44 +149,44 @@ def gbase(t) -> str:
 
 def gtype(t) -> str:
     if isinstance(t, T.Tensor):
-        return "(TTensor %s %s %s)" % (gbase(t.basetype()), "true" if t.is_window else "false",
-                                       glist(gexpr(r) for r in t.shape()))
-    return "(TBase %s)" % gbase(t)
+        return "(tensor %s %s %s)" % (gbase(t.basetype()), "1" if t.is_window else "0",
+                                      glist(gexpr(r) for r in t.shape()))
+    return "(base %s)" % gbase(t)
 
 
 def gmem(m) -> str:
-    return "(Some %s)" % q(m.name()) if m else "None"
+    return "(some %s)" % q(m.name()) if m else "(none)"
 
 
 def gstmt(s) -> str:
     if isinstance(s, LoopIR.Pass):
-        return "SPass"
+        return "(pass)"
     if isinstance(s, (LoopIR.Assign, LoopIR.Reduce)):
-        c = "SAssign" if isinstance(s, LoopIR.Assign) else "SReduce"
+        c = "assign" if isinstance(s, LoopIR.Assign) else "reduce"
         return "(%s %s %s %s)" % (c, gsym(s.name), glist(gexpr(i) for i in s.idx), gexpr(s.rhs))
     if isinstance(s, LoopIR.WriteConfig):
-        return "(SWriteConfig %s %s %s)" % (q(s.config.name()), q(s.field), gexpr(s.rhs))
+        return "(wcfg %s %s %s)" % (q(s.config.name()), q(s.field), gexpr(s.rhs))
     if isinstance(s, LoopIR.WindowStmt):
-        return "(SWindowStmt %s %s)" % (gsym(s.name), gexpr(s.rhs))
+        return "(wstmt %s %s)" % (gsym(s.name), gexpr(s.rhs))
     if isinstance(s, LoopIR.Alloc):
-        return "(SAlloc %s %s %s)" % (gsym(s.name), gtype(s.type), gmem(s.mem))
+        return "(alloc %s %s %s)" % (gsym(s.name), gtype(s.type), gmem(s.mem))
     if isinstance(s, LoopIR.Free):
-        return "(SFree %s)" % gsym(s.name)
+        return "(free %s)" % gsym(s.name)
     if isinstance(s, LoopIR.Call):
-        return "(SCall %s %s)" % (q(str(s.f.name)), glist(gexpr(a) for a in s.args))
+        return "(call %s %s)" % (q(str(s.f.name)), glist(gexpr(a) for a in s.args))
     if isinstance(s, LoopIR.If):
-        return "(SIf %s %s %s)" % (gexpr(s.cond), glist(gstmt(b) for b in s.body), glist(gstmt(b) for b in s.orelse))
+        return "(if %s %s %s)" % (gexpr(s.cond), glist(gstmt(b) for b in s.body), glist(gstmt(b) for b in s.orelse))
     if isinstance(s, LoopIR.For):
-        par = "true" if isinstance(s.loop_mode, LoopIR.Par) else "false"
-        return "(SFor %s %s %s %s %s)" % (gsym(s.iter), gexpr(s.lo), gexpr(s.hi), par, glist(gstmt(b) for b in s.body))
+        par = "1" if isinstance(s.loop_mode, LoopIR.Par) else "0"
+        return "(for %s %s %s %s %s)" % (gsym(s.iter), gexpr(s.lo), gexpr(s.hi), par, glist(gstmt(b) for b in s.body))
     raise Unsupported("stmt %s" % type(s).__name__)
 
 
 def gproc(p) -> str:
-    args = glist("(mkArg %s %s %s)" % (gsym(a.name), gtype(a.type), gmem(a.mem)) for a in p.args)
-    instr = "(Some %s)" % glist(q(l) for l in p.instr.c_instr.split("\n")) if p.instr else "None"
-    return "(mkProc %s %s %s %s %s)" % (q(str(p.name)), args, instr, glist(gexpr(e) for e in p.preds),
-                                        glist(gstmt(s) for s in p.body))
+    args = glist("(arg %s %s %s)" % (gsym(a.name), gtype(a.type), gmem(a.mem)) for a in p.args)
+    instr = "(some %s)" % glist(q(l) for l in p.instr.c_instr.split("\n")) if p.instr else "(none)"
+    return "(proc %s %s %s %s %s)" % (q(str(p.name)), args, instr, glist(gexpr(e) for e in p.preds),
+                                      glist(gstmt(s) for s in p.body))
 
 
 # ====================================================================================== observing PrintEnv
@@ -267,7 +268,7 @@ def observe_print(ir):
 
 
 def gops(ops) -> str:
-    return glist("OPush" if o == "push" else "OPop" if o == "pop" else "(OGet %s)" % gsym(o[1]) for o in ops)
+    return glist("(push)" if o == "push" else "(pop)" if o == "pop" else "(get %s)" % gsym(o[1]) for o in ops)
 
 
 # ====================================================================================== expressions
@@ -316,31 +317,31 @@ def tree_to_loopir(t):
     return LoopIR.BinOp(t[1], tree_to_loopir(t[2]), tree_to_loopir(t[3]), T.index, NULL)
 
 
-def tree_to_gallina(t):
+def tree_to_sexp(t):
     k = t[0]
     if k == "var":
-        return "(ERead %s [])" % q(t[1])
+        return "(read %s ())" % q(t[1])
     if k == "idx":
-        return "(ERead %s %s)" % (q(t[1]), glist(tree_to_gallina(i) for i in t[2]))
+        return "(read %s %s)" % (q(t[1]), glist(tree_to_sexp(i) for i in t[2]))
     if k == "const":
         return gconst(t[1])
     if k == "neg":
-        return "(EUSub %s)" % tree_to_gallina(t[1])
-    return "(EBin %s %s %s)" % (BINOPS[t[1]], tree_to_gallina(t[2]), tree_to_gallina(t[3]))
+        return "(neg %s)" % tree_to_sexp(t[1])
+    return "(bin %s %s %s)" % (BINOPS[t[1]], tree_to_sexp(t[2]), tree_to_sexp(t[3]))
 
 
-def uast_to_gallina(e):
+def uast_to_sexp(e):
     """the tree the REAL front end built (UAST, before type checking) in the model's syntax"""
     if isinstance(e, UAST.Read):
-        return "(ERead %s %s)" % (q(str(e.name)), glist(uast_to_gallina(i) for i in e.idx))
+        return "(read %s %s)" % (q(str(e.name)), glist(uast_to_sexp(i) for i in e.idx))
     if isinstance(e, UAST.Const):
         return gconst(e.val)
     if isinstance(e, UAST.USub):
-        return "(EUSub %s)" % uast_to_gallina(e.arg)
+        return "(neg %s)" % uast_to_sexp(e.arg)
     if isinstance(e, UAST.BinOp):
         if e.op not in BINOPS:
             raise Unsupported("operator %r" % e.op)
-        return "(EBin %s %s %s)" % (BINOPS[e.op], uast_to_gallina(e.lhs), uast_to_gallina(e.rhs))
+        return "(bin %s %s %s)" % (BINOPS[e.op], uast_to_sexp(e.lhs), uast_to_sexp(e.rhs))
     raise Unsupported("UAST %s" % type(e).__name__)
 
 
@@ -352,16 +353,16 @@ def real_parse(text: str):
         info = pyparser.SourceInfo(src_file="c17", src_line_offset=0, src_col_offset=0)
         pr = pyparser.Parser(fdef, info, parent_scope=pyparser.DummyScope({}, {}), as_func=True)
         u = pr.result()
-        return uast_to_gallina(u.body[0].rhs), None
+        return uast_to_sexp(u.body[0].rhs), None
     except Unsupported:
         raise
     except Exception as e:  # SyntaxError, ParseError, or whatever evaluating a non-expression raises
         return None, "%s: %s" % (type(e).__name__, str(e)[:120])
 
 
-TOK = {"or": "TOp OpOr", "and": "TOp OpAnd", "<": "TOp OpLt", ">": "TOp OpGt", "<=": "TOp OpLe", ">=": "TOp OpGe",
-       "==": "TOp OpEq", "+": "TOp OpAdd", "-": "TOp OpSub", "*": "TOp OpMul", "/": "TOp OpDiv", "%": "TOp OpMod",
-       "(": "TLP", ")": "TRP", "[": "TLB", "]": "TRB", ",": "TComma"}
+TOK = {"or": "(op OpOr)", "and": "(op OpAnd)", "<": "(op OpLt)", ">": "(op OpGt)", "<=": "(op OpLe)", ">=": "(op OpGe)",
+       "==": "(op OpEq)", "+": "(op OpAdd)", "-": "(op OpSub)", "*": "(op OpMul)", "/": "(op OpDiv)", "%": "(op OpMod)",
+       "(": "lp", ")": "rp", "[": "lb", "]": "rb", ",": "comma"}
 
 
 def rand_tokens(rng, depth):
@@ -388,15 +389,15 @@ def rand_tokens(rng, depth):
     return rand_tokens(rng, depth - 1) + [rng.choice(ALLOPS)] + rand_tokens(rng, depth - 1)
 
 
-def toks_to_gallina(toks):
+def toks_to_sexp(toks):
     out = []
     for t in toks:
         if t in TOK:
             out.append(TOK[t])
         elif re.match(r"^[0-9.]+$", t):
-            out.append("TLit %s" % q(t))
+            out.append("(lit %s)" % q(t))
         else:
-            out.append("TId %s" % q(t))
+            out.append("(id %s)" % q(t))
     return glist(out)
 
 
@@ -962,6 +963,13 @@ def norm_msg(cls, msg):
             break
     if m is None:
         m = msg.strip().split("\n")[0]
+    for pat, key in (("always unsatisfiable", "assertion_always_unsatisfiable"),
+                     ("Could not verify assertion", "could_not_verify_callee_assertion"),
+                     ("expected writes to configuration", "config_write_depends_on_loop_iteration"),
+                     ("out-of-bounds", "access_out_of_bounds"),
+                     ("to always be non-negative", "extent_may_be_negative")):
+        if pat in msg:
+            return key
     m = re.sub(r"'[^']*'", "_", m)
     words = re.findall(r"[A-Za-z]+", m)
     return "_".join(words[:6])[:70]
@@ -1026,7 +1034,7 @@ def main():
         try:
             real = PP._print_expr(tree_to_loopir(t), PP.PrintEnv())
             tree, err = real_parse(real)
-            emit({"t": "expr", "id": k, "coq": tree_to_gallina(t), "text": real, "parsed": tree, "err": err,
+            emit({"t": "expr", "id": k, "coq": tree_to_sexp(t), "text": real, "parsed": tree, "err": err,
                   "wf_only": wf_only})
         except Unsupported as e:
             emit({"t": "export_error", "where": "expr", "detail": str(e)})
@@ -1053,7 +1061,7 @@ def main():
         text = " ".join(toks)
         try:
             tree, err = real_parse(text)
-            emit({"t": "parse", "id": k, "toks": toks_to_gallina(toks), "text": text, "parsed": tree, "err": err,
+            emit({"t": "parse", "id": k, "toks": toks_to_sexp(toks), "text": text, "parsed": tree, "err": err,
                   "malformed": malformed})
         except Unsupported as e:
             emit({"t": "export_error", "where": "parse", "detail": str(e)})
